@@ -145,8 +145,34 @@ class Sut(object):
             pass
         return lru
 
-    def QL(self, lrus):
-        return [self.Q(x) for x in lrus]
+    def W(self, lru):
+        """Prefix argument of a prefix-editing request: text instead of bytes for about a quarter of the
+        prefixes (chosen by content, so a replay makes the same choice), when it round-trips."""
+        if len(lru) > 2 and (len(lru) * 7 + lru[-2]) % 4 == 0:
+            enc = self.cfg.get("encoding", "utf-8")
+            try:
+                t_ = lru.decode(enc)
+                if t_.encode(enc) == lru:
+                    self.stats["text_arguments_in_prefix_edits"] += 1
+                    return t_
+            except Exception:
+                pass
+        return lru
+
+    def QL(self, lrus, one_shot=False):
+        """The prefixes of a query: mostly a list, now and then a tuple and - for the requests that read
+        their prefixes once on the pinned tree - a one-shot iterator (a generator expression at the call site)."""
+        out = [self.Q(x) for x in lrus]
+        r = getattr(self, "_qrng", None)
+        if r is not None:
+            x = r.random()
+            if x < 0.2:
+                self.stats["prefix_lists_given_as_tuples"] += 1
+                return tuple(out)
+            if one_shot and x < 0.3:
+                self.stats["prefix_lists_given_as_one_shot_iterators"] += 1
+                return iter(out)
+        return out
 
     def gid_of(self, prefix):
         return self.m.we.get(prefix)
@@ -253,7 +279,11 @@ class Sut(object):
                 for e in op["data"]:
                     s_, ts = e[0], e[1]
                     text_key = a or (len(e) > 2 and e[2])
-                    data[self.arg(s_, text_key)] = [self.arg(x, a) for x in ts]
+                    tl = [self.arg(x, a) for x in ts]
+                    if (len(ts) + len(s_)) % 5 == 0:
+                        tl = iter(tl)  # the targets of a source as a one-shot iterator (a generator at the call site)
+                        self.stats["batch_targets_given_as_one_shot_iterators"] += 1
+                    data[self.arg(s_, text_key)] = tl
                 r, order = self._observed(lambda: t.index_batch_crawl(data, yield_frequency=op.get("yf", 50)))
                 named = []
                 for e in op["data"]:
@@ -269,7 +299,7 @@ class Sut(object):
                 before = dict(m.we)
                 ok = m.create_webentity(op["prefixes"])
                 try:
-                    r = t.create_webentity(list(op["prefixes"]))
+                    r = t.create_webentity([self.W(x) for x in op["prefixes"]])
                     got_ok = True
                     self.last_report = (r.nb_created_pages, sorted((k_, list(v)) for k_, v in r.created_webentities.items()))
                 except TraphException:
@@ -298,9 +328,9 @@ class Sut(object):
                     self.stats["ops_skipped"] += 1
                     return out
                 if op.get("unchecked"):
-                    t.delete_webentity(self.idmap[gid], list(ps), check_for_corruption=False)
+                    t.delete_webentity(self.idmap[gid], [self.W(x) for x in ps], check_for_corruption=False)
                 else:
-                    t.delete_webentity(self.idmap[gid], list(ps))
+                    t.delete_webentity(self.idmap[gid], [self.W(x) for x in ps])
                 for p in ps:
                     del m.we[p]
             elif k == "addp":
@@ -312,7 +342,7 @@ class Sut(object):
                 m.ins(p)
                 exp_ok = p not in m.we
                 try:
-                    t.add_prefix_to_webentity(p, self.idmap[gid])
+                    t.add_prefix_to_webentity(self.W(p), self.idmap[gid])
                     got_ok = True
                 except TraphException:
                     got_ok = False
@@ -329,9 +359,9 @@ class Sut(object):
                     self.stats["ops_skipped"] += 1
                     return out
                 if op.get("with_id", True):
-                    t.remove_prefix_from_webentity(p, self.idmap[gid])
+                    t.remove_prefix_from_webentity(self.W(p), self.idmap[gid])
                 else:
-                    t.remove_prefix_from_webentity(p)
+                    t.remove_prefix_from_webentity(self.W(p))
                 m.ins(p)
                 del m.we[p]
             elif k == "mvp":
@@ -343,9 +373,9 @@ class Sut(object):
                     return out
                 mv = t.move_prefix_to_webentity_from_webentity if op.get("alias") else t.move_prefix_to_webentity
                 if op.get("with_src", True):
-                    mv(p, self.idmap[dst], self.idmap[src])
+                    mv(self.W(p), self.idmap[dst], self.idmap[src])
                 else:
-                    mv(p, self.idmap[dst])
+                    mv(self.W(p), self.idmap[dst])
                 m.we[p] = dst
             elif k in ("bad_delete", "bad_rmp", "bad_mvp"):
                 # requests the library must refuse with its own error, leaving the attachments as they are
@@ -915,7 +945,7 @@ class Sut(object):
             ps = list(ps)
             rng.shuffle(ps)
             w = self.idmap[gid]
-            got = t.get_webentity_pages(w, self.QL(ps))
+            got = t.get_webentity_pages(w, self.QL(ps, True))
             exp = m.we_pages(gid, owner)
             gl = [x["lru"] for x in got]
             union.update(gl)
@@ -924,7 +954,7 @@ class Sut(object):
                 out.append(D(["C05"], "webentity-pages", gid=gid, prefixes=ps, got=sorted(gl)[:6], expected=sorted(exp)[:6],
                              n_got=len(gl), n_expected=len(exp)))
                 return
-            gc = t.get_webentity_crawled_pages(w, ps)
+            gc = t.get_webentity_crawled_pages(w, self.QL(ps, True))
             gcl = [x["lru"] for x in gc]
             if sorted(gcl) != sorted(p for p, c in exp.items() if c) or not all(x["crawled"] for x in gc):
                 out.append(D(["C05"], "webentity-crawled-pages", gid=gid, got=sorted(gcl)[:6]))
@@ -1007,6 +1037,32 @@ class Sut(object):
             self.stats["C07_transposes"] += 1
             if a != tb:
                 out.append(D(["C07"], "transpose", auto=auto))
+                return
+            # every other entry point to the same network (the generator forms, drained; the in/out aliases)
+            def drain(gen):
+                last = None
+                for st in gen:
+                    last = st
+                return last.result
+
+            forms = []
+            for nm, call in (("get_webentities_outlinks_iter", lambda: drain(t.get_webentities_outlinks_iter(include_auto=auto))),
+                             ("get_webentities_links_iter(out=True)", lambda: drain(t.get_webentities_links_iter(out=True, include_auto=auto))),
+                             ("get_webentities_links_slow_iter(out=True)", lambda: drain(t.get_webentities_links_slow_iter(out=True, include_auto=auto)))):
+                if hasattr(t, nm.split("(")[0]):
+                    forms.append((nm, call, a))
+            for nm, call in (("get_webentities_inlinks_iter", lambda: drain(t.get_webentities_inlinks_iter(include_auto=auto))),
+                             ("get_webentities_links_iter(out=False)", lambda: drain(t.get_webentities_links_iter(out=False, include_auto=auto))),
+                             ("get_webentities_links_slow_iter(out=False)", lambda: drain(t.get_webentities_links_slow_iter(out=False, include_auto=auto)))):
+                if hasattr(t, nm.split("(")[0]):
+                    forms.append((nm, call, b))
+            for nm, call, ref in forms:
+                got = self.flat(call())
+                self.stats["C07_entry_point_forms"] += 1
+                if Counter({k: v for k, v in got.items() if v}) != Counter({k: v for k, v in ref.items() if v}):
+                    out.append(D(["C07"], "network-entry-points-disagree", form=nm, auto=auto,
+                                 diff=sorted(((got - ref) + (ref - got)).items(), key=repr)[:6]))
+                    return
 
     # -- C08
     def audit_C08(self, rng, out, dec, owner, byw):
@@ -1017,7 +1073,7 @@ class Sut(object):
             w = self.idmap[gid]
             for ib, ii, io in SWITCHES7:
                 got = Counter()
-                lst = t.get_webentity_pagelinks(w, self.QL(ps), include_inbound=bool(ib), include_internal=bool(ii), include_outbound=bool(io))
+                lst = t.get_webentity_pagelinks(w, self.QL(ps, True), include_inbound=bool(ib), include_internal=bool(ii), include_outbound=bool(io))
                 for s, x, wt in lst:
                     got[(s, x)] += wt
                 e = m.we_pagelinks(gid, ii, io, ib, owner)
@@ -1028,8 +1084,8 @@ class Sut(object):
                     return
             cited = {owner[x][0] for (s, x) in m.links if owner[s][0] == gid} - {None}
             citing = {owner[s][0] for (s, x) in m.links if owner[x][0] == gid} - {None}
-            go = {self.tr(x) for x in t.get_webentity_outlinks(w, ps)} - {None}
-            gi = {self.tr(x) for x in t.get_webentity_inlinks(w, ps)} - {None}
+            go = {self.tr(x) for x in t.get_webentity_outlinks(w, self.QL(ps, True))} - {None}
+            gi = {self.tr(x) for x in t.get_webentity_inlinks(w, self.QL(ps, True))} - {None}
             self.stats["C08_cited_sets"] += 1
             if go != cited:
                 out.append(D(["C08"], "cited-webentities", gid=gid, got=sorted(go, key=repr), expected=sorted(cited)))
@@ -1051,8 +1107,8 @@ class Sut(object):
             ps = list(ps)
             rng.shuffle(ps)
             w = self.idmap[gid]
-            ch = {self.tr(x) for x in t.get_webentity_child_webentities(w, self.QL(ps))}
-            pa = {self.tr(x) for x in t.get_webentity_parent_webentities(w, self.QL(ps))}
+            ch = {self.tr(x) for x in t.get_webentity_child_webentities(w, self.QL(ps, True))}
+            pa = {self.tr(x) for x in t.get_webentity_parent_webentities(w, self.QL(ps, True))}
             ech = m.children(gid)
             epa = m.parents(gid)
             self.stats["C13_webentities"] += 1
@@ -1134,7 +1190,7 @@ class Sut(object):
                         below = len(stems(p)) - len(stems(pre))
                         if depth is None or below <= depth:
                             elig.append(p)
-                    ans = t.get_webentity_most_linked_pages(w, self.QL(ps), pages_count=k, max_depth=depth)
+                    ans = t.get_webentity_most_linked_pages(w, self.QL(ps, True), pages_count=k, max_depth=depth)
                     self.stats["C20_answers"] += 1
                     if any(ind[p] == 0 for p in elig):
                         self.stats["C20_answers_with_unlinked_eligible"] += 1
